@@ -6,8 +6,10 @@ mod c03;
 mod dirgen;
 mod c04;
 mod c06;
+mod c07;
 mod dmg;
 mod c08;
+mod c09;
 mod cpdec;
 mod c10;
 mod c11;
@@ -29,6 +31,12 @@ fn main() {
         std::process::exit(2);
     }
     let prop = args[1].clone();
+    if prop == "c09child" {
+        std::process::exit(c09::child(&args[2..]));
+    }
+    if prop == "c09verify" {
+        std::process::exit(c09::verify(&args[2..]));
+    }
     if prop == "dmgworker" {
         std::panic::set_hook(Box::new(|info| {
             util::record_panic(info);
@@ -79,6 +87,7 @@ fn main() {
         "c03" => c03::run(&mut ctx),
         "c04" => c04::run(&mut ctx),
         "c06" => c06::run(&mut ctx),
+        "c07" => c07::run(&mut ctx),
         "c15" => c15::run(&mut ctx),
         "c08" => c08::run(&mut ctx),
         "c10" => c10::run(&mut ctx),
